@@ -266,6 +266,7 @@ func runC16(c *Ctx) {
 	c.rule("R-REST", 1, "Rest returns the very reader Next reads from")
 	c.rule("R-YIELD", 1, "Scanner.Each stops calling f once it returned false")
 	c.rule("R-POOL-RESET", 1, "pooled scanner is Reset before use, Put back on exit, never escapes")
+	c.rule("R-SPLIT-VIA-SCANNER", 1, "every result of shell.Split is produced by the pooled Scanner (no path bypasses the table)")
 	c.assume("bufio.Reader.ReadByte hides read fragmentation (standard library contract)")
 	c.assume("the reference transducer (printed in evidence) is the intended POSIX word-splitting semantics for blanks, newlines, backslash, single and double quotes; $ and ` are ordinary bytes here")
 
@@ -595,6 +596,7 @@ func runC16(c *Ctx) {
 
 	ruleYield(c, []*ssa.Function{P.Func("shell", "Scanner", "Each")})
 	rulePoolReset(c, []*ssa.Function{P.Func("shell", "", "Split")})
+	ruleSplitViaScanner(c, P.Func("shell", "", "Split"))
 
 	// evidence extras
 	tbl := map[string]map[string]string{}
